@@ -414,3 +414,12 @@ Section InterpMapping.
     (- 2 ^ 31 <= idx v <= 2 ^ 31 - 1)%Z.
   Proof. apply (idx_interp_int32 _ _ _ HP), (mult_log2_pos _ Hg). Qed.
 End InterpMapping.
+
+Theorem interp_value_incr (P Pinv : R -> R) (c : R) (HP : Interp P Pinv c)
+  (gamma o a : R) (i j : Z) :
+  1 < gamma -> -1 < a -> (i < j)%Z ->
+  value_of (Linvint Pinv) (mult_log2 gamma) o a i < value_of (Linvint Pinv) (mult_log2 gamma) o a j.
+Proof.
+  intros Hg Ha Hij.
+  apply (gen_value_incr _ _ _ (loglike_interp _ _ _ HP) _ o (mult_log2_pos _ Hg)); assumption.
+Qed.
